@@ -15,6 +15,9 @@ The code is transcribed as it is:
     (`dbg = false`, a release build): outcome `TravErr.debugAssert`;
   * `Pre::calibrate_for_match` reverts the step down with `goto_parent()` *without* decrementing
     `current_depth` (so the depth counter may run ahead of the real depth afterwards).
+`Post.calibrateFixed` / `Post.visitFixed` are the same machine with the repaired
+`Post::calibrate_for_match` (no early `return` in the `Some(depth)` branch); `Post.calibrate` /
+`Post.visit` stay the model of the pinned code.
 Every `while`/`loop` takes the explicit budget `fuel`; running out is `TravErr.fuel`.  The
 budget used by the entry points is `travFuel n = 2 * size n + 2`.
 -/
@@ -282,6 +285,73 @@ def visitCollect (dbg reentrant named : Bool) (m : Tree → Bool) (F : Nat) :
 def visit (dbg reentrant named : Bool) (m : Tree → Bool) (n : Tree) : TM (List Tree) :=
   match new (travFuel n) n with
   | .ok p => visitCollect dbg reentrant named m (travFuel n) (travFuel n) p
+  | .error e => .error e
+
+/-! ### the repaired `calibrate_for_match` (fix of the last-child defect)
+
+`Post::calibrate_for_match` after the repair: the early `return;` of the `Some(depth)` branch is
+removed, so that after `match_depth = depth` the code falls through to the test
+`current_depth >= match_depth` and the loop over the ancestors, as in the `None` branch.  When the
+reported match was a last child the cursor already stands on its parent
+(`current_depth = depth - 1`), and the parent (and every further ancestor reached by `step_up`)
+is skipped instead of tested.  `calibrate` / `visit` above stay the model of the pinned code. -/
+
+/-- the part of `calibrate_for_match` after the `if let Some(depth)` block -/
+def calibTail (F : Nat) (p : Post) : TM Post :=
+  if p.depth ≥ p.matchDepth then .ok p
+  else
+    match p.startId with
+    | none => .ok p
+    | some start => calibLoop F F p start
+
+/-- the repaired `calibrate_for_match(depth)`; `dbg` = the build has debug assertions -/
+def calibrateFixed (dbg : Bool) (F : Nat) (p : Post) : Option Nat → TM Post
+  | some d =>
+    if dbg && d < p.matchDepth then .error .debugAssert
+    else calibTail F { p with matchDepth := d }   -- no early return
+  | none => calibTail F p
+
+/-- `Visit::next` over the repaired post-order traversal -/
+def visitNextFixed (dbg reentrant named : Bool) (m : Tree → Bool) (F : Nat) :
+    (fuel : Nat) → Post → TM (Option Tree × Post)
+  | 0, _ => .error .fuel
+  | fuel + 1, p =>
+    let matchDepth := p.depth
+    match next F p with
+    | .error e => .error e
+    | .ok (none, p') => .ok (none, p')
+    | .ok (some node, p') =>
+      let passNamed := !named || node.named
+      if passNamed && m node then
+        if reentrant then .ok (some node, p')
+        else
+          match calibrateFixed dbg F p' (some matchDepth) with
+          | .ok p'' => .ok (some node, p'')
+          | .error e => .error e
+      else
+        if reentrant then visitNextFixed dbg reentrant named m F fuel p'
+        else
+          match calibrateFixed dbg F p' none with
+          | .ok p'' => visitNextFixed dbg reentrant named m F fuel p''
+          | .error e => .error e
+
+def visitCollectFixed (dbg reentrant named : Bool) (m : Tree → Bool) (F : Nat) :
+    (fuel : Nat) → Post → TM (List Tree)
+  | 0, _ => .error .fuel
+  | fuel + 1, p =>
+    match visitNextFixed dbg reentrant named m F F p with
+    | .error e => .error e
+    | .ok (none, _) => .ok []
+    | .ok (some x, p') =>
+      match visitCollectFixed dbg reentrant named m F fuel p' with
+      | .ok xs => .ok (x :: xs)
+      | .error e => .error e
+
+/-- `Visitor::new(m).algorithm::<PostOrder>().reentrant(r).named_only(k).visit(n).collect()` with
+the repaired `calibrate_for_match` -/
+def visitFixed (dbg reentrant named : Bool) (m : Tree → Bool) (n : Tree) : TM (List Tree) :=
+  match new (travFuel n) n with
+  | .ok p => visitCollectFixed dbg reentrant named m (travFuel n) (travFuel n) p
   | .error e => .error e
 
 end Post
